@@ -315,12 +315,15 @@ func TestVerif_C15_TCPMux(t *testing.T) {
 				handles[u] = append(handles[u], h)
 				ops = append(ops, fmt.Sprintf("getConn(%s)", u))
 			case "client":
-				kind := rapid.SampledFrom([]string{"valid", "valid", "valid", "oversized-first", "non-stun", "non-binding", "no-username", "huge-length", "connect-close", "slow-loris", "partial-frame", "duplicate-address"}).Draw(rt, "kind")
-				if (kind == "slow-loris" || kind == "partial-frame") && !timed {
+				kind := rapid.SampledFrom([]string{"valid", "valid", "valid", "oversized-first", "non-stun", "non-binding", "no-username", "huge-length", "connect-close", "slow-loris", "partial-frame", "dribble", "duplicate-address"}).Draw(rt, "kind")
+				if (kind == "slow-loris" || kind == "partial-frame" || kind == "dribble") && !timed {
 					kind = "non-stun"
 				}
 				if gone[u] {
 					continue
+				}
+				if _, prov := provisionalAt[u]; prov && timed {
+					continue // attaching to a provisional connection races with its (short) alive timer by design
 				}
 				var dup *c15Client
 				if kind == "duplicate-address" {
@@ -375,17 +378,32 @@ func TestVerif_C15_TCPMux(t *testing.T) {
 					go func() { _ = send(cl, []byte{0x00}) }()
 				case "partial-frame":
 					go func() { _ = send(cl, append([]byte{0x01, 0x00}, []byte("only a few bytes")...)) }()
+				case "dribble":
+					// a valid first frame, but one byte at a time, more often than the timeout: the frame is late all the same
+					frame := c15Frame(append(append([]byte{}, first...), make([]byte, 0)...))
+					go func() {
+						for _, b := range frame {
+							if send(cl, []byte{b}) != nil {
+								return
+							}
+							select {
+							case <-cl.done:
+								return
+							case <-time.After(firstTO / 2):
+							}
+						}
+					}()
 				}
 				if kind != "valid" && kind != "duplicate-address" {
 					lbl["hostile-client"] = true
 					limit := 20 * time.Second
-					if kind == "slow-loris" || kind == "partial-frame" {
+					if kind == "slow-loris" || kind == "partial-frame" || kind == "dribble" {
 						lbl["timeout-client"] = true
 						limit = max(25*firstTO, 10*time.Second)
 					}
 					if !cl.closedByPeer(limit) {
 						dead, dump := vfStuck("TCPMuxDefault")
-						if dead || kind == "slow-loris" || kind == "partial-frame" {
+						if dead || kind == "slow-loris" || kind == "partial-frame" || kind == "dribble" {
 							fail("C15/hostile/not-closed", "%s: %s client was not closed by the mux within %s\n%s", where, kind, limit, dump)
 						}
 						st.Inconclusive()
@@ -598,6 +616,107 @@ func TestVerif_C15_TCPMux(t *testing.T) {
 		st.Record(vfHashStr(desc), nontrivial, labels...)
 		if nontrivial && st.WantSample() {
 			st.Sample(func() string { return desc })
+		}
+	})
+}
+
+
+// A provisional connection (created for an unknown ufrag) that has been claimed with GetConnByUfrag never
+// expires, whatever attaches to it later.
+func TestVerif_C15_ClaimedProvisionalSurvives(t *testing.T) {
+	st := vfNewStats(t)
+	lf := logging.NewDefaultLoggerFactory()
+	lf.DefaultLogLevel = logging.LogLevelDisabled
+	rapid.Check(t, func(rt *rapid.T) {
+		alive := time.Duration(rapid.IntRange(150, 300).Draw(rt, "aliveMs")) * time.Millisecond
+		later := rapid.IntRange(0, 3).Draw(rt, "laterClients")
+		writeBuf := rapid.SampledFrom([]int{0, 1 << 20}).Draw(rt, "writeBuffer")
+		ln := newC15Listener()
+		mux := NewTCPMuxDefault(TCPMuxParams{Listener: ln, Logger: lf.NewLogger("verif"), ReadBufferSize: 64, WriteBufferSize: writeBuf, FirstStunBindTimeout: time.Hour, AliveDurationForConnFromStun: alive})
+		var clients []*c15Client
+		defer func() {
+			for _, c := range clients {
+				_ = c.conn.Close()
+			}
+			done := make(chan struct{})
+			go func() { _ = mux.Close(); close(done) }()
+			select {
+			case <-done:
+			case <-time.After(10 * time.Second):
+			}
+		}()
+		localIP := net.IPv4(10, 0, 0, 1)
+		port := 30000
+		connect := func() *c15Client {
+			a, b := net.Pipe()
+			port++
+			remote := &net.TCPAddr{IP: net.IPv4(198, 51, 100, 9), Port: port}
+			cl := &c15Client{id: len(clients), conn: a, remote: remote, kind: "valid", ufrag: "uz", done: make(chan struct{})}
+			go cl.reader()
+			clients = append(clients, cl)
+			ln.ch <- &c15Conn{Conn: b, local: &net.TCPAddr{IP: localIP, Port: 8443}, remote: remote}
+			_ = cl.conn.SetWriteDeadline(time.Now().Add(20 * time.Second))
+			_, _ = cl.conn.Write(c15Frame(c15StunBinding("uz:peer", true, stun.MethodBinding)))
+
+			return cl
+		}
+		attached := func(remote *net.TCPAddr) bool {
+			mux.mu.Lock()
+			pc, ok := mux.getConn("uz", false, localIP)
+			mux.mu.Unlock()
+			if !ok {
+				return false
+			}
+			pc.mu.Lock()
+			defer pc.mu.Unlock()
+			_, has := pc.conns[remote.String()]
+
+			return has
+		}
+		t0 := time.Now()
+		first := connect()
+		for d := time.Now().Add(20 * time.Second); !attached(first.remote) && time.Now().Before(d); {
+			time.Sleep(50 * time.Microsecond)
+		}
+		h, err := mux.GetConnByUfrag("uz", false, localIP)
+		if err != nil || time.Since(t0) > alive/3 {
+			st.Inconclusive()
+
+			return // the claim came too late to be sure it preceded the expiry: not judged
+		}
+		defer h.Close() //nolint:errcheck
+		for i := 0; i < later; i++ {
+			c11Jitter(rapid.IntRange(0, 30).Draw(rt, "jitter"))
+			connect()
+		}
+		time.Sleep(3 * alive)
+		desc := fmt.Sprintf("alive=%s laterClients=%d writeBuffer=%d", alive, later, writeBuf)
+		st.Record(vfHashStr(desc), later > 0, fmt.Sprintf("later:%d", later))
+		if st.WantSample() {
+			st.Sample(func() string { return desc })
+		}
+		if !attached(first.remote) {
+			st.Fail(rt, "C15/provisional/claimed-connection-expired", "%s: the claimed packet connection is gone %s after creation", desc, time.Since(t0))
+		}
+		// still usable in both directions
+		_ = first.conn.SetWriteDeadline(time.Now().Add(20 * time.Second))
+		if _, err := first.conn.Write(c15Frame([]byte("late packet"))); err != nil {
+			st.Fail(rt, "C15/provisional/claimed-connection-expired", "%s: client can no longer write: %v", desc, err)
+		}
+		seen := false
+		for i := 0; i < 2+later && !seen; i++ {
+			_ = h.SetReadDeadline(time.Now().Add(20 * time.Second))
+			buf := make([]byte, 2000)
+			n, _, err := h.ReadFrom(buf)
+			if err != nil {
+				st.Fail(rt, "C15/provisional/claimed-connection-expired", "%s: reader of the claimed connection failed: %v", desc, err)
+
+				break
+			}
+			seen = string(buf[:n]) == "late packet"
+		}
+		if _, err := h.WriteTo([]byte("reply"), first.remote); err != nil {
+			st.Fail(rt, "C15/provisional/claimed-connection-expired", "%s: reply over the claimed connection failed: %v", desc, err)
 		}
 	})
 }
